@@ -34,6 +34,7 @@ CONSTANTS
   StatsOf,      \* [<<recipe id, policy>> -> set of operators the recipe selects under the policy in force WHEN IT IS USED]
   WritesStats,  \* [<<recipe id, policy>> -> BOOLEAN]: quantising aliases/overwrites statistics (same-scale / fixed-range ops selected)
   Datasets,     \* dataset ids
+  EmptyData,    \* the datasets without samples: calibrating on one returns the (empty) entries created at initialisation only
   Names,        \* model names QuantizationResult.save() may be called with (one folder)
   MaxLen,       \* history length
   MaxCals,      \* bound on calibration results alive
@@ -66,7 +67,8 @@ NoCal == 0
 Seen(k) == IF k = NoCal THEN << <<"nocal">>, {} >> ELSE <<cals[k].val, cals[k].writes>>
 \* operators for which a calibration value term holds statistics (a resumed result keeps those of its base)
 RECURSIVE Covered(_)
-Covered(v) == IF v = <<"nocal">> THEN {} ELSE StatsOf[<<v[1], v[2]>>] \cup Covered(v[4][1])
+Covered(v) == IF v = <<"nocal">> THEN {}
+              ELSE (IF v[3] \in EmptyData THEN {} ELSE StatsOf[<<v[1], v[2]>>]) \cup Covered(v[4][1])
 Pristine(k) == IF k = NoCal THEN << <<"nocal">>, {} >> ELSE <<snap[k], {}>>
 
 Load(q, r) ==
